@@ -10,9 +10,17 @@ CFGS = {
               ("c04-d", dict(FlushSteps="TRUE", CrashAt=FL, NoCrashIn='{"create"}', MaxStmts=5, MaxRows=1, MaxFlush=1, MaxCrash=1, Vals="{1}", Ops='{"create", "insert", "update"}'), 15000),
               # leaves that do not split on every insert (capacity 4): a flush of existing pages of a multi-level tree
               ("c04-f", dict(LeafCap=4, FlushSteps="TRUE", CrashAt=FL, NoCrashIn='{"create"}', MaxStmts=4, MaxRows=2, MaxFlush=2, MaxCrash=1, Tables='{"t1"}', Vals="{1}", Ops='{"create", "insert", "update"}'), 15000),
+              # a scripted corridor: a table grown to two leaves and flushed, then in ONE flush interval a row inserted, every
+              # row updated and an insert that splits the right-most leaf and carries that row to the new page;
+              # the flush after it torn in every way (the redo then re-inserts into the written half and must still redo
+              # the later records of that page)
+              ("c04-u", dict(FlushSteps="TRUE", CrashAt=FL, NoCrashIn='{"create"}', MaxStmts=6, MaxRows=3, MaxFlush=2, MaxCrash=1, Tables='{"t1"}', Vals="{1}",
+                             Wheres="{0}", Ops='{"create", "insert", "update"}', Script="<- ScriptInsUpdSplit", ScriptRows="<- RowsInsUpdSplit"), None),
               # a torn flush of existing pages, recovery, more statements, a clean restart
               ("c04-e", dict(FlushSteps="TRUE", CrashAt='{"flush", "idle"}', NoCrashIn='{"create"}', MaxStmts=5, MaxRows=1, MaxFlush=2, MaxCrash=2, Tables='{"t1"}', Vals="{1}", Ops='{"create", "insert", "update"}'), 15000)],
-    "thorough": [("c04-a", dict(EmitMod=12, FlushSteps="TRUE", CrashAt=FL, MaxStmts=3, MaxRows=3, MaxFlush=1, MaxCrash=1, Tables='{"t1"}'), 60000),
+    "thorough": [("c04-u", dict(FlushSteps="TRUE", CrashAt=FL, NoCrashIn='{"create"}', MaxStmts=6, MaxRows=3, MaxFlush=2, MaxCrash=1, Tables='{"t1"}', Vals="{1}",
+                                Wheres="{0}", Ops='{"create", "insert", "update"}', Script="<- ScriptInsUpdSplit", ScriptRows="<- RowsInsUpdSplit"), None),
+                 ("c04-a", dict(EmitMod=12, FlushSteps="TRUE", CrashAt=FL, MaxStmts=3, MaxRows=3, MaxFlush=1, MaxCrash=1, Tables='{"t1"}'), 60000),
                  ("c04-b", dict(FlushSteps="TRUE", CrashAt=FL, MaxStmts=4, MaxRows=2, MaxFlush=2, MaxCrash=2, Tables='{"t1"}', Vals="{1}"), 40000),
                  ("c04-c", dict(EmitMod=3, FlushSteps="TRUE", CrashAt=FL, MaxStmts=3, MaxRows=2, MaxFlush=1, MaxCrash=1), 60000),
                  ("c04-d", dict(FlushSteps="TRUE", CrashAt=FL, NoCrashIn='{"create"}', MaxStmts=6, MaxRows=1, MaxFlush=1, MaxCrash=1, Vals="{1}", Ops='{"create", "insert", "update"}'), 60000),
